@@ -376,11 +376,11 @@ def search(deadline, rng, bodies=400, exhaustive_len=0):
         o.expect = set(exp)
         o.why = [what]
         cases.append((src, o))
-    for body in (exhaustive(exhaustive_len) if exhaustive_len else ()):
-        cases.append((render(body), expected(body)))
     for i in range(bodies):
         g = G(rng, rng.choice([6, 10, 16, 24]))
         body = g.block(0, ['return'], top=True)
+        cases.append((render(body), expected(body)))
+    for body in (exhaustive(exhaustive_len) if exhaustive_len else ()):
         cases.append((render(body), expected(body)))
 
     def one(c):
